@@ -20,6 +20,9 @@ EVIDENCE = os.path.join(VERIF, "evidence")
 KNOWN = os.path.join(VERIF, "known_findings.json")
 
 
+REPO = os.environ.get("SYMX_REPO", "/repo").rstrip("/")     # a scratch worktree when evaluating seeded changes
+
+
 def job(prop, name, module, fn, params=None, budget_s=60.0, expect="hold", max_paths=20000,
         oblige_timeout_ms=20000, branch_timeout_ms=5000, validate=True, kind="symx", **extra):
     d = dict(prop=prop, name=name, module=module, fn=fn, params=params or {}, budget_s=budget_s,
@@ -46,8 +49,8 @@ def _monitor_start(store):
 
     def on_start(code, offset):
         fn = code.co_filename
-        if fn.startswith("/repo/iodata") and "/test/" not in fn:
-            store.add(f"{fn[len('/repo/'):]}:{code.co_qualname}")
+        if fn.startswith(REPO + "/iodata") and "/test/" not in fn:
+            store.add(f"{fn[len(REPO) + 1:]}:{code.co_qualname}")
         return mon.DISABLE
     mon.register_callback(tool, mon.events.PY_START, on_start)
     mon.set_events(tool, mon.events.PY_START)
